@@ -248,8 +248,22 @@ def _marker_whitespace(ctx: Ctx):
                     yield {"kind": "soup", "text": pre + m + b + f + "\n", "opts": base if i % 3 else dict(base, semantic=True, width=20)}
 
 
+def _placeholder_texts(ctx: Ctx):
+    """Atomic constructs and text that looks like the inside of the word splitter's placeholders (NUL + "AC<n>" + NUL),
+    in every arrangement of four slots: a restored placeholder must never be made of pieces of its neighbours."""
+    import itertools
+
+    slots = ["<b>", "`c`", "[]", "{% t %}", "AC0", "AC1", "AC2", " "]
+    base = {"width": 88, "plaintext": False, "semantic": False, "cleanups": False, "smartquotes": False, "ellipses": False, "list_spacing": "preserve"}
+    for i, combo in enumerate(itertools.product(slots, repeat=4)):
+        if i % ctx.nshards != ctx.shard:
+            continue
+        yield {"kind": "soup", "text": "".join(combo) + "\n", "opts": base if i % 2 else dict(base, width=1, semantic=True)}
+
+
 def shard_work(ctx: Ctx) -> None:
     ctx.run_cases("pumped_families", _pumped(ctx), exhaustive=True)
+    ctx.run_cases("placeholder_texts", _placeholder_texts(ctx), exhaustive=True)
     ctx.run_cases("marker_whitespace", _marker_whitespace(ctx), exhaustive=True)
     ctx.run_hypothesis("unicode_soup", _soup_case(), ctx.n(20000, 500000))
     ctx.run_hypothesis("structured_documents", _structured_case(), ctx.n(4000, 100000))
